@@ -30,15 +30,19 @@ import (
 type clockDry struct{}
 
 type script struct {
-	mid   int64
-	t0    int64
-	clock [][2]int64 // (reading, count)
+	mid     int64
+	t0      int64
+	clock   [][2]int64 // (reading, count)
+	callers int64      // > 1: that many goroutines share the generator (conc.go)
 }
 
 func (s script) sx() Sx {
 	l := make([]Sx, len(s.clock))
 	for i, e := range s.clock {
 		l[i] = Ints(e[0], e[1])
+	}
+	if s.callers > 1 {
+		return List(Int(s.mid), Int(s.t0), ListOf(l), Int(s.callers))
 	}
 	return List(Int(s.mid), Int(s.t0), ListOf(l))
 }
@@ -47,6 +51,9 @@ func scriptOf(in Sx) script {
 	s := script{mid: in.At(0).Int64(), t0: in.At(1).Int64()}
 	for _, e := range in.At(2).L {
 		s.clock = append(s.clock, [2]int64{e.At(0).Int64(), e.At(1).Int64()})
+	}
+	if in.Len() > 3 {
+		s.callers = in.At(3).Int64()
 	}
 	return s
 }
@@ -74,6 +81,9 @@ func nanos(t int64) int64 { return t*uuid.TimeUnit + uuid.CustomEpoch }
 
 // runGen drives one generator through its script with the real code.
 func runGen(s script) (auto int64, outs []outcome) {
+	if s.callers > 1 {
+		return runGenConcurrent(s)
+	}
 	clockMu.Lock()
 	defer clockMu.Unlock()
 	defer func() { uuid.VerifClock = nil }()
@@ -411,6 +421,10 @@ func (g *tgen) emit(kind string, ss []script) {
 	if what, ok := goCheck(ss, res); !ok {
 		g.out.Violation("C09/go-"+what+"/"+kind, "snowflake property fails (Go-side restatement): "+what, List(in, obs))
 	}
+	if concViolation != "" {
+		g.out.Violation("C09/go-exclusion/"+kind, concViolation, List(in, obs))
+		concViolation = ""
+	}
 }
 
 func machineIDs(r *Rng) []int64 {
@@ -435,13 +449,31 @@ func gen(a Args, out *Out) {
 		}
 		for _, m := range mids {
 			out.Count(fmt.Sprintf("machine:%s", midClass(m)))
-			g.emit(styleName[style], []script{{m, t0, clk}})
+			g.emit(styleName[style], []script{{m, t0, clk, 0}})
 		}
 	}
 	// the exact range edge: the sequence runs out during the last supported time unit
 	for _, m := range []int64{1, 1<<14 - 1, 65535} {
-		g.emit("edge", []script{{m, maxTU - 1, [][2]int64{{maxTU, 1025}, {maxTU + 1, 1}}}})
-		g.emit("edge", []script{{m, maxTU, [][2]int64{{maxTU, 1024}, {maxTU + 1, 2}}}})
+		g.emit("edge", []script{{m, maxTU - 1, [][2]int64{{maxTU, 1025}, {maxTU + 1, 1}}, 0}})
+		g.emit("edge", []script{{m, maxTU, [][2]int64{{maxTU, 1024}, {maxTU + 1, 2}}, 0}})
+	}
+	// concurrent callers of one generator, linearised by the clock readings they consumed
+	nconc := 40
+	if a.Thorough() {
+		nconc = 400
+	}
+	for k := 0; k < nconc; k++ {
+		style := k % 4 // forward, <=3 rollbacks, many rollbacks, stall
+		t0, clk := g.trajectory(style)
+		// more readings per step so that callers really contend
+		for i := range clk {
+			if clk[i][1] < 1000 {
+				clk[i][1] += int64(r.Range(0, 40))
+			}
+		}
+		mids := machineIDs(r)
+		out.CountN("concurrent:callers", 1)
+		g.emit("concurrent", []script{{mids[1+r.Intn(len(mids)-1)], t0, clk, int64(r.Range(2, 8))}})
 	}
 	// pairs of generators: machine ids that differ only above bit 14 on clocks shifted by
 	// one unit, and unrelated machine ids on the same clock
@@ -460,18 +492,18 @@ func gen(a Args, out *Out) {
 			for _, e := range clk {
 				clk2 = append(clk2, [2]int64{e[0] + 1, e[1]})
 			}
-			g.emit("pair-high-bits", []script{{m1, t0, clk}, {m2, t0 + 1, clk2}})
+			g.emit("pair-high-bits", []script{{m1, t0, clk, 0}, {m2, t0 + 1, clk2, 0}})
 		case 1:
 			m2 = m1 ^ (int64(r.Range(1, 3)) << 14)
-			g.emit("pair-high-bits", []script{{m1, t0, clk}, {m2, t0, clk}})
+			g.emit("pair-high-bits", []script{{m1, t0, clk, 0}, {m2, t0, clk, 0}})
 		default:
 			m2 = int64(r.Range(1, 65535))
-			g.emit("pair-random", []script{{m1, t0, clk}, {m2, t0, clk}})
+			g.emit("pair-random", []script{{m1, t0, clk, 0}, {m2, t0, clk, 0}})
 		}
 	}
 	// Go-side sweep over every machine id: a short trajectory each (quick), 8 trajectories
 	// including rollbacks each (thorough; the stall/edge styles are sampled, they sleep)
-	per := 1
+	per := 3
 	if a.Thorough() {
 		per = 8
 	}
@@ -483,7 +515,7 @@ func gen(a Args, out *Out) {
 			clk = [][2]int64{{t0 + 2, 2}, {t0 + 3, 1}, {t0 + 4, 3}}
 		}
 		for m := int64(0); m < 65536; m++ {
-			ss := []script{{m, t0, clk}}
+			ss := []script{{m, t0, clk, 0}}
 			res, obs := runScripts(ss)
 			out.GoChecked++
 			if what, ok := goCheck(ss, res); !ok {
@@ -498,7 +530,7 @@ func gen(a Args, out *Out) {
 				for _, e := range clk {
 					clk2 = append(clk2, [2]int64{e[0] + 1, e[1]})
 				}
-				ps := []script{{m, t0, clk}, {m - 1<<14, t0 + 1, clk2}}
+				ps := []script{{m, t0, clk, 0}, {m - 1<<14, t0 + 1, clk2, 0}}
 				pres, pobs := runScripts(ps)
 				out.GoChecked++
 				if what, ok := goCheck(ps, pres); !ok {
@@ -516,7 +548,7 @@ func gen(a Args, out *Out) {
 			if clk[2][0] < 0 {
 				clk[2][0] = 0
 			}
-			g.emit("all-machines", []script{{m, t0, clk}})
+			g.emit("all-machines", []script{{m, t0, clk, 0}})
 		}
 	}
 	if a.Thorough() {
@@ -524,7 +556,7 @@ func gen(a Args, out *Out) {
 		for j := 0; j < 4; j++ {
 			t0, clk := g.trajectory(3 + j%2)
 			for m := int64(r.Intn(64)); m < 65536; m += 64 {
-				ss := []script{{m, t0, clk}}
+				ss := []script{{m, t0, clk, 0}}
 				res, obs := runScripts(ss)
 				out.GoChecked++
 				if what, ok := goCheck(ss, res); !ok {
@@ -549,6 +581,26 @@ func midClass(m int64) string {
 // concurrent: m goroutines share one generator under the real clock; every id must be
 // distinct and each caller's ids increasing.  Run under -race in the thorough tier.
 func concurrent() {
+	// scripted clock, linearised by the readings consumed, checked against the Go restatement
+	rr := NewRng(1)
+	tmp, _ := os.MkdirTemp("", "c09conc")
+	defer os.RemoveAll(tmp)
+	tg := &tgen{rng: rr, out: NewOut(Args{OutDir: tmp})}
+	ncalls := 0
+	for k := 0; k < 60; k++ {
+		t0, clk := tg.trajectory(k % 3)
+		for i := range clk {
+			clk[i][1] += int64(rr.Range(0, 60))
+		}
+		ss := []script{{int64(rr.Range(1, 65535)), t0, clk, int64(rr.Range(2, 8))}}
+		res, _ := runScripts(ss)
+		ncalls += len(res[0].outs)
+		if what, ok := goCheck(ss, res); !ok || concViolation != "" {
+			fmt.Println("FAIL:", what, concViolation, inputOf(ss).String())
+			os.Exit(1)
+		}
+	}
+	fmt.Printf("concurrent: 60 scripted scenarios, %d linearised calls, property holds\n", ncalls)
 	const callers, each = 8, 20000
 	sf := uuid.NewSnowflake(4321)
 	var wg sync.WaitGroup
